@@ -201,6 +201,29 @@ pub fn models(tier: Tier) -> Vec<(String, Bigram)> {
             }
         }
     }
+    // K = 24 / 25 / 33: three to five SIMD blocks; block 1 (positions 8..15) of right id 1 holds
+    // only placeholders / unlisted features, listed pairs follow in later blocks
+    for k in [24usize, 25, 33] {
+        for variant in 0..2usize {
+            let row = |side: usize, id: usize| -> Vec<String> {
+                (0..k)
+                    .map(|p| {
+                        if side == 0 && id == 1 && (8..16).contains(&p) {
+                            if variant == 0 { "*".to_string() } else { format!("unlisted{p}") }
+                        } else {
+                            feats[(p * (variant + 1) + id * 2 + side) % feats.len()].to_string()
+                        }
+                    })
+                    .collect()
+            };
+            let right: Vec<Vec<String>> = (1..=2).map(|id| row(0, id)).collect();
+            let left: Vec<Vec<String>> = (1..=2).map(|id| row(1, id)).collect();
+            for mask in [3u32, 7, 63] {
+                let cost: Vec<(String, String, i32)> = menu.iter().enumerate().filter(|(i, _)| mask & (1 << i) != 0).map(|(i, (a, b))| (a.to_string(), b.to_string(), costs[(i + variant) % 3])).collect();
+                out.push((format!("K{k}/blocks/v{variant}/m{mask}"), Bigram { right: right.clone(), left: left.clone(), cost }));
+            }
+        }
+    }
     // clamp universe: large costs, K = 17
     for mask in [63u32, 21] {
         let right: Vec<Vec<String>> = (1..=2).map(|id| (0..17).map(|p| if (p + id) % 2 == 0 { "x" } else { "y" }.to_string()).collect()).collect();
